@@ -330,26 +330,48 @@ def fault_scenarios(ctx, n):
     # (slow_close, reset_peer, latency with data in flight) still holds one of its connections: the request must return and the API,
     # including every request that looks a proxy up, must keep answering
     nbase = len(cases)
-    for i in range(max(4, n // 2)):
+    pairs = [(0, 0), (1, 1), (2, 2), (3, 3), (0, 4), (3, 5), (2, 4), (0, 6), (2, 5), (3, 4), (0, 5), (2, 6), (0, 1), (1, 0), (3, 6), (2, 3)]
+    for i in range(max(8, n // 2)):
         g = i % 6
         b = T.port_base(g)
         up, px = b + 5, b + 6
-        holder = [{"type": "slow_close", "attributes": {"delay": 600000}}, {"type": "reset_peer", "attributes": {"timeout": 600000}},
-                  {"type": "latency", "attributes": {"latency": 600000}}, {"type": "slow_close", "stream": "upstream", "attributes": {"delay": 600000}}][i % 4]
+        hi, si = pairs[i % len(pairs)]
+        holder = [{"type": "slow_close", "name": "h", "attributes": {"delay": 600000}}, {"type": "reset_peer", "name": "h", "attributes": {"timeout": 600000}},
+                  {"type": "latency", "name": "h", "attributes": {"latency": 600000}},
+                  {"type": "slow_close", "name": "h", "stream": "upstream", "attributes": {"delay": 600000}}][hi]
+        # ... or the holding toxic itself is removed, updated or reset away while it holds the connection (the request has to interrupt it)
         stopper = [T.api("DELETE", "/proxies/p"), T.api("POST", "/proxies/p", {"enabled": False}),
                    T.api("POST", "/proxies/p", {"listen": "127.0.0.1:%d" % (b + 7)}),
-                   T.api("POST", "/populate", [{"name": "p", "listen": "127.0.0.1:%d" % px, "upstream": "127.0.0.1:%d" % (b + 8)}])][(i // 4) % 4]
+                   T.api("POST", "/populate", [{"name": "p", "listen": "127.0.0.1:%d" % px, "upstream": "127.0.0.1:%d" % (b + 8)}]),
+                   T.api("DELETE", "/proxies/p/toxics/h"), T.api("POST", "/reset"),
+                   T.api("POST", "/proxies/p/toxics/h", {"attributes": {"delay": 600001, "timeout": 600001, "latency": 600001}})][si]
         stopper["ms"] = 4000
         ops = [{"op": "upstream", "id": "u", "port": up, "mode": "echo"},
                T.api("POST", "/proxies", {"name": "p", "listen": "127.0.0.1:%d" % px, "upstream": "127.0.0.1:%d" % up}),
                T.api("POST", "/proxies", {"name": "other", "listen": "127.0.0.1:%d" % (b + 9), "upstream": "127.0.0.1:%d" % up}),
                T.api("POST", "/proxies/p/toxics", holder),
-               {"op": "dial", "id": "c", "addr": "127.0.0.1:%d" % px}, {"op": "send", "id": "c", "n": 20}, {"op": "sleep", "ms": 30},
+               {"op": "dial", "id": "c", "addr": "127.0.0.1:%d" % px}, {"op": "send", "id": "c", "n": 20}, {"op": "sleep", "ms": 30}] + \
+              ([{"op": "close", "id": "c", "how": "half"}, {"op": "sleep", "ms": 80}] if si >= 4 else []) + [      # the sender has ended: slow_close is in its delay
                stopper,
                dict(T.api("GET", "/version"), ms=3000), dict(T.api("GET", "/proxies"), ms=3000), dict(T.api("GET", "/proxies/other"), ms=3000),
                {"op": "dial", "id": "ok", "addr": "127.0.0.1:%d" % (b + 9)}, {"op": "send", "id": "ok", "n": 64},
                {"op": "recv", "id": "ok", "up": "ok", "n": 64, "ms": 1500}]
         cases.append({"ops": ops, "group": g, "fault": "stop_while_%s_holds_a_connection" % holder["type"], "held": True})
+    # finding F14 (known): a reset_peer stage that has seen its first data sits out its timeout in an uninterruptible wait; a request
+    # that has to interrupt it (remove / update the toxic, reset, add behind it) waits with the collection lock held for what is left of
+    # the timeout - which the client chose. Witness with a timeout of 6 s so that the scenario ends by itself.
+    b = T.port_base(7)
+    up, px = b + 5, b + 6
+    cases.append({"ops": [{"op": "upstream", "id": "u", "port": up, "mode": "echo"},
+                          T.api("POST", "/proxies", {"name": "p", "listen": "127.0.0.1:%d" % px, "upstream": "127.0.0.1:%d" % up}),
+                          T.api("POST", "/proxies", {"name": "other", "listen": "127.0.0.1:%d" % (b + 9), "upstream": "127.0.0.1:%d" % up}),
+                          T.api("POST", "/proxies/p/toxics", {"type": "reset_peer", "name": "h", "attributes": {"timeout": 6000}}),
+                          {"op": "dial", "id": "c", "addr": "127.0.0.1:%d" % px}, {"op": "send", "id": "c", "n": 20}, {"op": "sleep", "ms": 100},
+                          dict(T.api("DELETE", "/proxies/p/toxics/h"), ms=2500),
+                          dict(T.api("GET", "/version"), ms=1000), dict(T.api("GET", "/proxies"), ms=1000), dict(T.api("GET", "/proxies/other"), ms=1000),
+                          {"op": "dial", "id": "ok", "addr": "127.0.0.1:%d" % (b + 9)}, {"op": "send", "id": "ok", "n": 64},
+                          {"op": "recv", "id": "ok", "up": "ok", "n": 64, "ms": 1500}, {"op": "sleep", "ms": 3500}],
+                  "group": 7, "fault": "stop_while_reset_peer_holds_a_connection", "held": True, "f14": True})
     results = T.run_tcp(ctx, cases, "c07")
     fails = []
     for c, r in zip(cases, results):
@@ -359,7 +381,8 @@ def fault_scenarios(ctx, n):
             stuck = [x for x in st if x.get("status") == -1]
             if stuck:
                 which = c["ops"][r.index(stuck[0])]
-                fails.append(("api-wedged-by-held-connection", "%s %s did not return within %d s while a %s toxic held a connection of the proxy (then: %s)"
+                fails.append(("reset-peer-wait-blocks-toxic-requests" if c.get("f14") else "api-wedged-by-held-connection",
+                              "%s %s did not return within %d s while a %s toxic held a connection of the proxy (then: %s)"
                               % (which.get("method"), which.get("path"), which.get("ms", 0) // 1000, c["fault"].split("_")[2] + "_" + c["fault"].split("_")[3],
                                  ", ".join("%s %s -> %s" % (c["ops"][r.index(x)].get("method"), c["ops"][r.index(x)].get("path"), x.get("status")) for x in st[3:])), rp))
             elif not (r[-1].get("ok") and r[-1].get("content_ok")):
